@@ -79,4 +79,89 @@ theorem renderTwice_eq (site : Site) (f bufF : List Char → List Char) (t : Lis
     cases b <;> cases fi <;> cases c <;>
       simp [renderTwice, callOnce, defFinish, visible, Site.filtered, Site.post]
 
+/-! ## Entries that produce bytes, and where their output settings come from -/
+
+/-- `(output_encoding, encoding_errors)` as `runtime._render` hands them to `FastEncodingBuffer` -/
+structure OutSettings where
+  encoding : Option (List Char)
+  errors : List Char
+deriving Repr, DecidableEq
+
+/-- the entry through which the bytes are produced -/
+inductive Entry where
+  | template      -- `Template.render`, a template obtained from a `TemplateLookup`
+  | defTemplate   -- `template.get_def(name).render`: a `DefTemplate`, whose `__init__` copies attributes from its parent
+deriving Repr, DecidableEq
+
+/-- the settings `_render` reads from the object it is given: a `DefTemplate` has what its `__init__` copied
+(`inherited` = the regenerated list of copied attribute names); an attribute that is not copied falls back to the
+`Template` class default (`None` / `"strict"`) or is missing -/
+def entrySettings (inherited : List (List Char)) (parent : OutSettings) : Entry → OutSettings
+  | .template => parent
+  | .defTemplate =>
+    { encoding := if "output_encoding".toList ∈ inherited then parent.encoding else none
+      errors := if "encoding_errors".toList ∈ inherited then parent.errors else "strict".toList }
+
+/-! ## `${expr}`: which filters reach an expression (`visitExpression` + `create_filter_callable`) -/
+
+/-- the filter names of one expression: its own (`${e | a,b}`), the `<%page expression_filter>` ones, the
+template's `default_filters` -/
+structure ExprConfig where
+  own : List (List Char)
+  page : List (List Char)
+  defaults : List (List Char)
+deriving Repr, DecidableEq
+
+def nName : List Char := ['n']
+
+/-- `create_filter_callable(args, target, is_expression=True)`: the names applied, in order -/
+def effectiveChain (c : ExprConfig) : List (List Char) :=
+  if nName ∈ c.own then c.own.filter (· ≠ nName)
+  else
+    let a := c.page ++ c.own
+    let a := if c.defaults ≠ [] ∧ nName ∉ a then c.defaults ++ a else a
+    a.filter (· ≠ nName)
+
+/-- which of the three sources the condition of `visitExpression` looks at (from the regenerated
+`exprFilterSources`) -/
+structure SourceChecks where
+  own : Bool
+  page : Bool
+  defaults : Bool
+deriving Repr, DecidableEq
+
+def sourceChecks (sources : List (List Char)) : SourceChecks :=
+  { own := "node.escapes".toList ∈ sources
+    page := "self.compiler.pagetag.filter_args.args".toList ∈ sources
+    defaults := "self.compiler.default_filters".toList ∈ sources }
+
+/-- `visitExpression`: the value goes through `create_filter_callable` iff one of the inspected sources is
+non-empty, otherwise it is written as it is (`α`: the values filters work on, e.g. `PyText`) -/
+def writeExpression {α} (chk : SourceChecks) (apply : List Char → α → α) (c : ExprConfig) (v : α) : α :=
+  if (chk.own && !c.own.isEmpty) || (chk.page && !c.page.isEmpty) || (chk.defaults && !c.defaults.isEmpty) then
+    (effectiveChain c).foldl (fun t name => apply name t) v
+  else v
+
+/-- a text value as the filters see it: a plain `str`, or a `markupsafe.Markup` (what `h` returns) -/
+structure PyText where
+  markup : Bool
+  text : List Char
+deriving Repr, DecidableEq
+
+/-- the filters by name on such a value: `h` = `markupsafe.escape` returns a `Markup` and leaves a `Markup`
+unchanged (it is "already safe"); `trim` (`Markup.strip`) keeps the kind; `x`, `u`, `entity`, `str` give a plain `str`;
+unknown names are not generated -/
+def applyFilter (name : List Char) (v : PyText) : PyText :=
+  if name = ['h'] then (if v.markup then v else ⟨true, htmlEscape v.text⟩)
+  else if name = ['x'] then ⟨false, xmlEscape v.text⟩
+  else if name = ['u'] then ⟨false, urlEscape v.text⟩
+  else if name = "entity".toList then ⟨false, entityEscape v.text⟩
+  else if name = "trim".toList then ⟨v.markup, trim v.text⟩
+  else if name = "str".toList then ⟨false, v.text⟩
+  else v
+
+theorem effectiveChain_nil (c : ExprConfig) (h1 : c.own = []) (h2 : c.page = []) (h3 : c.defaults = []) :
+    effectiveChain c = [] := by
+  simp [effectiveChain, h1, h2, h3]
+
 end MakoModel.Filters.Sites
